@@ -205,7 +205,7 @@ def mk_field(base, name, idx):
                 return ops[i]
         elif idx is not None and idx < len(ops) and not names:
             return ops[idx]
-    return ('field', base, name)
+    return ('field', base, name, idx)
 
 
 # ----------------------------------------------------------------------
@@ -217,7 +217,7 @@ def subst(e, amap):
     if k in ('local', 'const', 'fn', 'unknown'):
         return e
     if k == 'field':
-        return mk_field(subst(e[1], amap), e[2], int(e[2]) if e[2].isdigit() else None)
+        return mk_field(subst(e[1], amap), e[2], e[3] if len(e) > 3 else (int(e[2]) if e[2].isdigit() else None))
     if k in ('variant',):
         return (k, subst(e[1], amap), e[2])
     if k in ('index', 'discr'):
@@ -241,7 +241,7 @@ def qualify_locals(e, ctx):
     if k in ('arg', 'const', 'fn', 'unknown'):
         return e
     if k == 'field':
-        return ('field', qualify_locals(e[1], ctx), e[2])
+        return ('field', qualify_locals(e[1], ctx), e[2], e[3] if len(e) > 3 else None)
     if k == 'variant':
         return (k, qualify_locals(e[1], ctx), e[2])
     if k in ('index', 'discr'):
